@@ -2,7 +2,7 @@
    ExtrOcamlBasic only: bool/option/list/prod/unit/sumbool map to OCaml's; Z,
    positive, nat, Q stay the extracted Coq datatypes.  No Extract Constant. *)
 From Coq Require Import Extraction ExtrOcamlBasic ZArith List.
-Require Import CV.RowLeg CV.RowLegCert CV.RowLegChecked CV.Orient CV.FreeSpace CV.Hpwl CV.Circuit CV.Legalizer CV.Moves CV.Optimiser CV.MovesConcrete.
+Require Import CV.RowLeg CV.RowLegCert CV.RowLegChecked CV.Orient CV.FreeSpace CV.Hpwl CV.Circuit CV.Legalizer CV.Moves CV.Optimiser CV.MovesConcrete CV.DetailedInit.
 Extraction Language OCaml.
 Extraction "model.ml"
   RowLeg.run RowLegChecked.checked_run RowLegCert.cert_ok RowLegChecked.mk_cells
@@ -12,4 +12,5 @@ Extraction "model.ml"
   Orient.cell_orientation_in_row Orient.opposite_row_orientation Orient.is_turn Circuit.prescribed Circuit.legalb Circuit.orient_okb Circuit.trivially_feasible Circuit.free_rows Legalizer.legalize_circuit Legalizer.circuit_after
   Moves.apply_mop Moves.step_mop Moves.shift_ok Moves.apply_shift Optimiser.otrace
   MovesConcrete.apply_cop MovesConcrete.cop_pre MovesConcrete.cstate_abs MovesConcrete.crow_make MovesConcrete.cstate_make
-  MovesConcrete.cstate_arrays MovesConcrete.cstate_orients.
+  MovesConcrete.cstate_arrays MovesConcrete.cstate_orients
+  DetailedInit.from_circuit.
